@@ -204,6 +204,7 @@ static void spline_case(Rng& rng, uint64_t)
 	double eps = rng.loguni(1e-9, 1e-1) * (double) L1;
 	eps		   = std::min(1e2, std::max(1e-18, eps)) * rng.sign();
 	int depth  = rng.coin(0.5) ? 20 : rng.irange(8, 25);
+	depth = flavour_depth(depth);
 	set_params(J().str("family", "quartic spline, f'''' piecewise constant").d("a", a).d("b", b).vec("breakpoints", t).vec("jumps_of_f4", dv).d("c0", c0).d("c1", c1).d("epsilon", eps).i("depth", depth));
 	hash_param(a), hash_param(b), hash_param(eps), hash_param_u(depth), hash_param(t[nb - 1]), hash_param(dv[nb - 1]);
 	if(!(vmax <= 4 * vmin) || !(vmin > 0))
